@@ -728,6 +728,94 @@ def surface_relations(res, rng, n, stats):
                           observed_surface_node_ids=sorted({k[1] for k, v in got_rows.items() if v}))
 
 
+def surface_model_stage(res, rng, n, stats):
+    """Correspondence of Mesh/Surface.v with Surface3D._determine_is_at_surface on axis-parallel blocks (boxes, grid lines at
+    random positions): per (element, node) row E = pi/2 (theorem surface_orthogonal_corner_excess), per node
+    Esum = incident * pi/2 with `incident` evaluated by vm_compute, flag = `on_boundary` evaluated in Coq
+    (theorem surface_flags_exactly_boundary)."""
+    import math
+    terms, info = [], []
+    for m in range(n):
+        dims = rng.choice([(1, 1, 1), (2, 1, 1), (1, 2, 2), (2, 2, 2), (3, 2, 2), (2, 3, 1), (3, 3, 2)][:5 if n < 10 else 7])
+        nx, ny, nz = dims
+        cubic = m % 2 == 0                   # cube cells: the model's E = pi/2 per row applies; boxes: flag and lower bound only
+        h = rng.choice([0.25, 1.0, 1.5, rng.uniform(0.2, 3.0)])
+        lines = []
+        for d in range(3):
+            x = rng.uniform(-3, 3)
+            ln = [x]
+            for _ in range(dims[d]):
+                x += h if cubic else rng.choice([0.25, 1.0, 1.5, 8.0, rng.uniform(0.2, 3.0)])
+                ln.append(x)
+            if rng.random() < 0.3:
+                ln = [-v for v in ln]                  # decreasing coordinates along this axis (cells mirrored)
+            lines.append(ln)
+        nid = lambda i, j, k: i + (nx + 1) * (j + (ny + 1) * k)
+        coords = [None] * ((nx + 1) * (ny + 1) * (nz + 1))
+        grid = {}
+        for k in range(nz + 1):
+            for j in range(ny + 1):
+                for i in range(nx + 1):
+                    coords[nid(i, j, k)] = (lines[0][i], lines[1][j], lines[2][k])
+                    grid[nid(i, j, k)] = (i, j, k)
+        elements = [tuple(nid(i + a, j + b, k + c) for a, b, c in mg.HEX_XI)
+                    for k in range(nz) for j in range(ny) for i in range(nx)]
+        unit = 1.0 if m % 3 else UNITS[(m // 3) % len(UNITS)]
+        coords = in_unit(coords, unit)
+        kind = mg.ID_MAPS[(m + 3) % len(mg.ID_MAPS)]
+        ids = mg.id_map(kind, len(coords), rng)
+        eids = mg.id_map(rng.choice(['contiguous', 'gaps', 'shuffled', 'zero_based']), len(elements), rng)
+        df = mg.frame(coords, elements, ids, eids, None, row_order=rng.choice(['blocks', 'shuffled_blocks']),
+                      flip_levels=rng.random() < 0.3, rng=rng)
+        mj = mg.mesh_json(coords, elements, ids, eids, id_map=kind, dims=list(dims), length_unit=unit, cubic_cells=cubic)
+        stats['surface_model'] = stats.get('surface_model', 0) + 1
+        try:
+            with time_limit():
+                d3 = df.surface_3D._determine_is_at_surface()
+            rows = list(zip(d3.index.get_level_values('element_id'), d3.index.get_level_values('node_id'),
+                            d3['E'].to_numpy(), d3['Esum'].to_numpy(), d3['is_at_surface'].to_numpy()))
+        except Exception as e:   # noqa: BLE001
+            res.oblige('Surface3D._determine_is_at_surface runs and returns E / Esum / is_at_surface per (element_id, node_id)', False, repr(e)[:300])
+            return
+        back = {ids[a]: a for a in range(len(coords))}
+        seen = {}
+        for e, nd, E, Es, fl in rows:
+            if (cubic and not abs(float(E) - math.pi / 2) <= 1e-9) or not float(E) >= math.pi / 2 - 1e-9:
+                res.violation(WHAT_SURF, mesh=mj, row=[int(e), int(nd)], observed_solid_angle=float(E), expected_solid_angle=math.pi / 2)
+                break
+            seen.setdefault(int(nd), (float(Es), bool(fl)))
+        if set(seen) != set(ids):
+            res.violation(WHAT_SURF, mesh=mj, observed='rows for node ids %s' % sorted(seen)[:20], expected='one row set per node')
+            continue
+        for nd, (Es, fl) in sorted(seen.items()):
+            i, j, k = grid[back[nd]]
+            bterm = ('Bool.eqb (((%d =? 0) || (%d =? %d) || (%d =? 0) || (%d =? %d) || (%d =? 0) || (%d =? %d))%%Z) %s'
+                     % (i, i, nx, j, j, ny, k, k, nz, 'true' if fl else 'false'))
+            if cubic:
+                c = int(round(Es / (math.pi / 2)))
+                if not abs(Es - c * math.pi / 2) <= 1e-8:
+                    res.violation(WHAT_SURF, mesh=mj, node_id=nd, observed_Esum=Es, expected='a multiple of pi/2')
+                    continue
+                terms.append('Nat.eqb (Surface.incident %d %d %d %d %d %d) %d && %s' % (nx, ny, nz, i, j, k, c, bterm))
+            else:
+                # boxes: the code's fallback branch for coplanar triples may report more than the orthogonal corner (see DESIGN 11.7);
+                # the model gives the lower bound Esum >= incident * pi/2, which decides the interior nodes, and the flag
+                c = int(math.floor((Es + 1e-8) / (math.pi / 2)))
+                terms.append('Nat.leb (Surface.incident %d %d %d %d %d %d) %d && %s' % (nx, ny, nz, i, j, k, c, bterm))
+            info.append((mj, nd, (i, j, k), c, fl))
+    bad, log = common.coq_compare('C19surf', ['From PL Require Import Mesh.Surface.'], terms, shard=300)
+    res.oblige('correspondence Surface model (incident count, boundary flag) = Surface3D on %d nodes of %d axis-parallel blocks' % (len(terms), n),
+               not bad, 'disagreeing nodes: %s\n%s' % ([info[i][1:] for i in bad[:5]], log[-1500:]))
+    for i in bad[:2]:
+        if i < len(info) and 'shard without verdict' not in log:
+            mj, nd, ijk, c, fl = info[i]
+            res.violation(WHAT_SURF, mesh=mj, node_id=nd, grid_position=list(ijk), observed_incident_count=c, observed_flag=fl,
+                          expected='incident count of the block model (cube cells: equal, box cells: lower bound) and flag = on the boundary')
+    res.add_cases(len(terms), nontrivial=sum(1 for x in info if not x[4]))
+    res.cov['surface_model_nodes'] = len(terms)
+    res.cov['surface_model_interior_nodes'] = sum(1 for x in info if not x[4])
+
+
 # ------------------------------------------------------------------------------------------------ run
 
 def griddata_nan_on_hull(d):
@@ -802,11 +890,11 @@ def run(res):
                     'CoqInterval for the certificates; float -> exact rational conversion',
                     'hand-written Gallina models Mesh/HotSpot.v (tied by vm_compute correspondence) and Mesh/Lstsq.v (tied by the relations on gradient.gradient_of)',
                     'harness/meshgen.py: mesh generators, the independent Python reference of the hot-spot property, the boundary oracle of block meshes',
-                    'axioms: ClassicalDedekindReals.sig_forall_dec, functional_extensionality_dep (Coq Reals); none for the HotSpot theorems']
+                    'axioms: ClassicalDedekindReals.sig_forall_dec, sig_not_dec, functional_extensionality_dep (Coq Reals), Classical_Prop.classic (through Ratan.asin in the surface theorems); none for the HotSpot theorems and surface_incident_closed_form']
     res.assumptions += ['np.linalg.inv / np.linalg.lstsq enter the theorems only through their contracts (right inverse of regular matrices / normal equations at full column rank)',
                         'element Jacobians regular at the nodes (jitter <= 0.2 cell sizes); floating-point rounding outside the theorems (relations at 1e-8 relative)',
                         'HotSpot model values are integers and limit_frac dyadic in the correspondence (exact in doubles); arbitrary doubles only against the Python reference',
-                        'scipy griddata and the solid-angle surface detection are not modelled: relations on the implementation only',
+                        'scipy griddata is not modelled (relations only); surface detection is modelled for axis-parallel blocks only (Mesh/Surface.v: incident-cell count, orthogonal corner angle, decision; that the maximal excess over vertex triples is the orthogonal corner is checked per row, not proved); oblique / perturbed blocks by relations only',
                         'duplicate (element_id, node_id) rows and NaN values are outside the property']
     res.cov['rule'] = ('perturbed (jitter <= 0.2 cell), anisotropically scaled and sheared hexahedral blocks up to 3x2x2 (quick) / 4x4x4 (thorough) and their 5-tetrahedra splits, '
                        'each also expressed in another length unit (1e-9 .. 1e9, cycling per kernel; one axis x 0.01 / x 100 in half of them), mapping targets as cloud / axis-parallel plane / '
@@ -842,6 +930,7 @@ def run(res):
     gradient_relations(res, rng, 12 if quick else 40, stats)
     mapping_relations(res, rng, 15 if quick else 80, stats)
     surface_relations(res, rng, 14 if quick else 28, stats)
+    surface_model_stage(res, rng, 8 if quick else 30, stats)
     k = sum(stats.values())
     res.add_cases(k, nontrivial=0)
     res.cov['impl_relation_evaluations'] = dict(stats)
